@@ -79,10 +79,12 @@ type GlobalFact struct {
 }
 
 type GhostDecl struct {
-	Name  string
-	Pkg   string
-	Type  ast.Expr
-	Where string
+	Name     string
+	Pkg      string
+	Type     ast.Expr
+	Where    string
+	ZeroInit bool // objects allocated later start with the zero ghost value
+	IfaceKey bool // keyed by interface payloads (arbitrary integers): frames carry no allocation guard
 }
 
 type Contracts struct {
@@ -338,11 +340,25 @@ func (c *Contracts) Load(path string, defaultPkg string) error {
 			cur = nil
 		case "ghost":
 			name, ty := splitWord(rest)
+			gd := &GhostDecl{Name: name, Pkg: pkg, Where: where}
+			for {
+				ty = strings.TrimSpace(ty)
+				if strings.HasSuffix(ty, " zeroinit") {
+					gd.ZeroInit = true
+					ty = strings.TrimSuffix(ty, " zeroinit")
+				} else if strings.HasSuffix(ty, " ifacekey") {
+					gd.IfaceKey = true
+					ty = strings.TrimSuffix(ty, " ifacekey")
+				} else {
+					break
+				}
+			}
 			te, err := parser.ParseExpr(ty)
 			if err != nil {
 				return fail(fmt.Errorf("bad ghost type %q: %v", ty, err))
 			}
-			c.Ghosts[name] = &GhostDecl{Name: name, Pkg: pkg, Type: te, Where: where}
+			gd.Type = te
+			c.Ghosts[name] = gd
 			cur = nil
 		case "abstract":
 			a, err := parseAbstract(rest)
